@@ -75,10 +75,16 @@ package types
 //@ pred hasTag(i, t) := exists k: int :: 0 <= k && k < len(i.Manifests) && tagOf(i.Manifests[k]) == t
 //@ pred tagRes(i, t, x) := exists k: int :: 0 <= k && k < len(i.Manifests) && tagOf(i.Manifests[k]) == t && i.Manifests[k].Digest == x
 //@ pred subjRes(i, s, x) := exists k: int :: 0 <= k && k < len(i.Manifests) && subjOf(i.Manifests[k]) == s && i.Manifests[k].Digest == x
-//@ pred wfW1(i) := forall j: int, k: int :: 0 <= j && j < len(i.Manifests) && 0 <= k && k < len(i.Manifests) && j != k && tagOf(i.Manifests[j]) != "" ==> tagOf(i.Manifests[j]) != tagOf(i.Manifests[k])
-//@ pred wfW2(i) := forall j: int, k: int :: 0 <= j && j < len(i.Manifests) && 0 <= k && k < len(i.Manifests) && j != k && subjOf(i.Manifests[j]) != "" ==> subjOf(i.Manifests[j]) != subjOf(i.Manifests[k])
-//@ pred wfW3(i) := forall j: int, k: int :: 0 <= j && j < len(i.Manifests) && 0 <= k && k < len(i.Manifests) && j != k && i.Manifests[j].Digest == i.Manifests[k].Digest ==> !plain(i.Manifests[j])
-//@ pred wfW5(i) := forall j: int, k: int :: 0 <= j && j < len(i.Manifests) && 0 <= k && k < len(i.Manifests) && j != k && i.Manifests[j].Annotations != nil ==> i.Manifests[j].Annotations != i.Manifests[k].Annotations
+//@ pred hasTagE(e) := tagOf(e) != ""
+//@ pred hasSubjE(e) := subjOf(e) != ""
+//@ pred annRef(e) := e.Annotations
+//@ pred hasAnn(e) := e.Annotations != nil
+//@ pred digOf(e) := e.Digest
+//@ -- uniqueWhen(S, key, cond): an entry satisfying cond is the only entry with its key
+//@ pred wfW1(i) := uniqueWhen(i.Manifests, tagOf, hasTagE)
+//@ pred wfW2(i) := uniqueWhen(i.Manifests, subjOf, hasSubjE)
+//@ pred wfW3(i) := uniqueWhen(i.Manifests, digOf, plain)
+//@ pred wfW5(i) := uniqueWhen(i.Manifests, annRef, hasAnn)
 //@ pred wfW6(i) := arr(i.Manifests) != arr(i.childManifests) || arr(i.Manifests) == 0
 //@ pred wfW7(i) := forall k: int :: 0 <= k && k < len(i.Manifests) ==> tagOf(i.Manifests[k]) == "" || subjOf(i.Manifests[k]) == ""
 //@ pred wfIndex(i) := wfW1(i) && wfW2(i) && wfW3(i) && wfW5(i) && wfW6(i) && wfW7(i)
@@ -121,11 +127,11 @@ package types
 //@ -- Every quantified variable is an index into the old or the new list (trigger discipline: a variable that only
 //@ -- occurs in equalities gives the solver nothing to instantiate on).
 //@ pred rmTagGone(d, t, x) := (d.Digest != "" && x == d.Digest && (old(tagOf(d)) == "" || t == old(tagOf(d)))) || (d.Digest == "" && old(tagOf(d)) != "" && t == old(tagOf(d)))
-//@ pred rmSubjGone(d, s, x) := (d.Digest != "" && x == d.Digest) || (d.Digest == "" && old(subjOf(d)) != "" && s == old(subjOf(d)))
+//@ pred rmSubjGone(d, s, x) := (d.Digest != "" && old(tagOf(d)) == "" && x == d.Digest) || (d.Digest == "" && old(subjOf(d)) != "" && s == old(subjOf(d)))
 //@ pred rmOtherTagsKept(i, d) := forall j: int :: 0 <= j && j < old(len(i.Manifests)) && old(tagOf(i.Manifests[j])) != "" && !rmTagGone(d, old(tagOf(i.Manifests[j])), old(i.Manifests[j]).Digest) ==>
 //@        tagRes(i, old(tagOf(i.Manifests[j])), old(i.Manifests[j]).Digest)
 //@ pred rmTagsNotInvented(i) := forall k: int :: 0 <= k && k < len(i.Manifests) && tagOf(i.Manifests[k]) != "" ==> old(tagRes(i, now(tagOf(i.Manifests[k])), now(i.Manifests[k].Digest)))
-//@ pred rmOtherSubjectsKept(i, d) := forall j: int :: 0 <= j && j < old(len(i.Manifests)) && old(subjOf(i.Manifests[j])) != "" && !rmSubjGone(d, old(subjOf(i.Manifests[j])), old(i.Manifests[j]).Digest) && !(old(tagOf(d)) != "" && d.Digest != "") ==>
+//@ pred rmOtherSubjectsKept(i, d) := forall j: int :: 0 <= j && j < old(len(i.Manifests)) && old(subjOf(i.Manifests[j])) != "" && !rmSubjGone(d, old(subjOf(i.Manifests[j])), old(i.Manifests[j]).Digest) ==>
 //@        subjRes(i, old(subjOf(i.Manifests[j])), old(i.Manifests[j]).Digest)
 //@ pred rmSubjectsNotInvented(i) := forall k: int :: 0 <= k && k < len(i.Manifests) && subjOf(i.Manifests[k]) != "" ==> old(subjRes(i, now(subjOf(i.Manifests[k])), now(i.Manifests[k].Digest)))
 //@ pred rmDigestsNotInvented(i) := forall k: int :: 0 <= k && k < len(i.Manifests) ==> old(hasDigest(i, now(i.Manifests[k].Digest)))
@@ -134,12 +140,17 @@ package types
 //@ pred rmOtherChildrenKept(i, d) := forall j: int :: 0 <= j && j < old(len(i.childManifests)) && !(old(tagOf(d)) == "" && old(i.childManifests[j]).Digest == d.Digest) ==> hasChild(i, old(i.childManifests[j]).Digest)
 //@ pred rmMapsNotInvented(i) := forall k: int :: 0 <= k && k < len(i.Manifests) ==> (exists j: int :: 0 <= j && j < old(len(i.Manifests)) && i.Manifests[k].Annotations == old(i.Manifests[j]).Annotations)
 
+//@ pred rmMapFrame(i) := forall m: Ref, key: string :: !mapsame(string, string, m, key) ==> (exists j: int :: 0 <= j && j < old(len(i.Manifests)) && old(i.Manifests[j]).Annotations == m)
+//@ pred rmChildrenSame(i) := i.childManifests == old(i.childManifests) && forall k: int :: 0 <= k && k < len(i.childManifests) ==> i.childManifests[k] == old(i.childManifests[k])
+
 //@ func (i *Index) RmDesc(d Descriptor)
 //@   props C18 C03
 //@   requires [wf] wfIndex(i)
 //@   ensures [wf] uses(3:wf, 1:top-level-same) wfIndex(i)
 //@   ensures [no-ref-left] uses(3:range, 3:cleaned-digest, 3:children) old(tagOf(d)) == "" && d.Digest != "" ==> !hasDigest(i, d.Digest) && !hasChild(i, d.Digest)
 //@   ensures [tag-gone] uses(3:range, 3:cleaned-tag) old(tagOf(d)) != "" && d.Digest != "" ==> !tagRes(i, old(tagOf(d)), d.Digest)
+//@   ensures [tag-gone-nodigest] uses(3:range, 3:cleaned-nodigest) old(tagOf(d)) != "" && d.Digest == "" ==> forall k: int :: 0 <= k && k < len(i.Manifests) ==> tagOf(i.Manifests[k]) != old(tagOf(d))
+//@   ensures [subj-gone-nodigest] uses(3:range, 3:cleaned-nodigest) old(subjOf(d)) != "" && d.Digest == "" ==> forall k: int :: 0 <= k && k < len(i.Manifests) ==> subjOf(i.Manifests[k]) != old(subjOf(d))
 //@   ensures [digest-kept] uses(3:range, 3:reachable, 3:found-means-kept) old(tagOf(d)) != "" && d.Digest != "" && old(hasDigest(i, d.Digest)) ==> hasDigest(i, d.Digest)
 //@   ensures [other-tags-kept] uses(3:other-tags-kept) rmOtherTagsKept(i, d)
 //@   ensures [tags-not-invented] uses(3:tags-not-invented) rmTagsNotInvented(i)
@@ -150,6 +161,8 @@ package types
 //@   ensures [children-not-invented] uses(3:children-not-invented) rmChildrenNotInvented(i)
 //@   ensures [other-children-kept] uses(3:other-children-kept) rmOtherChildrenKept(i, d)
 //@   ensures [maps-not-invented] uses(3:maps-not-invented) rmMapsNotInvented(i)
+//@   ensures [map-frame] uses(3:map-frame, 1:top-level-same) rmMapFrame(i)
+//@   ensures [children-same] uses(3:children-same, 1:range) old(tagOf(d)) != "" || d.Digest == "" ==> rmChildrenSame(i)
 //@   ensures [shrinks] uses(3:shape) len(i.Manifests) <= old(len(i.Manifests)) && arr(i.Manifests) == old(arr(i.Manifests)) && off(i.Manifests) == old(off(i.Manifests))
 //@   loop 1: invariant [range] uses() -1 <= mi && mi < len(i.childManifests) && tag == "" && d.Digest != ""
 //@   loop 1: invariant [shape] uses(range) arr(i.childManifests) == old(arr(i.childManifests)) && off(i.childManifests) == old(off(i.childManifests)) && len(i.childManifests) <= old(len(i.childManifests))
@@ -161,23 +174,104 @@ package types
 //@   loop 1: decreases mi + 1
 //@   loop 2: invariant [scan] tag == old(tagOf(d)) && tag != "" && d.Digest != "" && rangeindex < len(i.Manifests) && !others &&
 //@             forall k: int :: 0 <= k && k <= rangeindex ==> !(i.Manifests[k].Digest == d.Digest && tagOf(i.Manifests[k]) != tag)
-//@   loop 3: invariant [range] uses() -1 <= mi && mi < len(i.Manifests) && tag == old(tagOf(d)) && (old(subjOf(d)) != "" ==> referrer == old(subjOf(d))) && (referrer != "" ==> referrer == old(subjOf(d)))
-//@   loop 3: invariant [shape] uses(range) arr(i.Manifests) == old(arr(i.Manifests)) && off(i.Manifests) == old(off(i.Manifests)) && len(i.Manifests) <= old(len(i.Manifests))
-//@   loop 3: invariant [wf] uses(range, shape, cleaned-digest, cleaned-tag, found-means-kept, others-witness, no-others) wfIndex(i)
-//@   loop 3: invariant [cleaned-digest] uses(range, shape) tag == "" && d.Digest != "" ==> forall k: int :: mi < k && k < len(i.Manifests) ==> i.Manifests[k].Digest != d.Digest
-//@   loop 3: invariant [cleaned-tag] uses(range, shape, wf) tag != "" && d.Digest != "" ==> forall k: int :: mi < k && k < len(i.Manifests) ==> !(i.Manifests[k].Digest == d.Digest && tagOf(i.Manifests[k]) == tag)
-//@   loop 3: invariant [found-means-kept] uses(range, shape) tag != "" && d.Digest != "" ==> (found <==> (exists k: int :: mi < k && k < len(i.Manifests) && i.Manifests[k].Digest == d.Digest))
-//@   loop 3: invariant [reachable] uses(range, shape, found-means-kept, others-witness) tag != "" && d.Digest != "" && old(hasDigest(i, d.Digest)) ==> found || (exists k: int :: 0 <= k && k <= mi && i.Manifests[k].Digest == d.Digest)
-//@   loop 3: invariant [others-witness] uses(range, shape, wf) others && !found && tag != "" && d.Digest != "" ==> (exists k: int :: 0 <= k && k <= mi && i.Manifests[k].Digest == d.Digest && tagOf(i.Manifests[k]) != tag)
-//@   loop 3: invariant [no-others] uses(range, shape, wf) !others && tag != "" && d.Digest != "" ==> forall k: int :: 0 <= k && k <= mi && i.Manifests[k].Digest == d.Digest ==> tagOf(i.Manifests[k]) == tag
-//@   loop 3: invariant [other-tags-kept] uses(range, shape, wf) rmOtherTagsKept(i, d)
-//@   loop 3: invariant [tags-not-invented] uses(range, shape, wf) rmTagsNotInvented(i)
-//@   loop 3: invariant [other-subjects-kept] uses(range, shape, wf) rmOtherSubjectsKept(i, d)
-//@   loop 3: invariant [subjects-not-invented] uses(range, shape, wf) rmSubjectsNotInvented(i)
-//@   loop 3: invariant [digests-not-invented] uses(range, shape) rmDigestsNotInvented(i)
-//@   loop 3: invariant [other-digests-kept] uses(range, shape) rmOtherDigestsKept(i, d)
-//@   loop 3: invariant [children] uses(range, shape, wf) !hasChild(i, d.Digest) || tag != "" || d.Digest == ""
-//@   loop 3: invariant [children-not-invented] uses(range, shape, wf) rmChildrenNotInvented(i)
-//@   loop 3: invariant [other-children-kept] uses(range, shape, wf) rmOtherChildrenKept(i, d)
-//@   loop 3: invariant [maps-not-invented] uses(range, shape) rmMapsNotInvented(i)
+//@   loop 3: invariant [range] uses() init(1:range, 1:shape, 1:top-level-same, 1:cleaned, 1:children-not-invented, 1:other-children-kept, 2:scan) -1 <= mi && mi < len(i.Manifests) && tag == old(tagOf(d)) && (old(subjOf(d)) != "" ==> referrer == old(subjOf(d))) && (referrer != "" ==> referrer == old(subjOf(d)))
+//@   loop 3: invariant [shape] uses(range) init(1:range, 1:shape, 1:top-level-same, 1:cleaned, 1:children-not-invented, 1:other-children-kept, 2:scan) arr(i.Manifests) == old(arr(i.Manifests)) && off(i.Manifests) == old(off(i.Manifests)) && len(i.Manifests) <= old(len(i.Manifests))
+//@   loop 3: invariant [wf] uses(range, shape, cleaned-digest, cleaned-tag, found-means-kept, others-witness, no-others) init(1:range, 1:shape, 1:top-level-same, 1:cleaned, 1:children-not-invented, 1:other-children-kept, 2:scan) wfIndex(i)
+//@   loop 3: invariant [cleaned-digest] uses(range, shape) init(1:range, 1:shape, 1:top-level-same, 1:cleaned, 1:children-not-invented, 1:other-children-kept, 2:scan) tag == "" && d.Digest != "" ==> forall k: int :: mi < k && k < len(i.Manifests) ==> i.Manifests[k].Digest != d.Digest
+//@   loop 3: invariant [cleaned-tag] uses(range, shape, wf) init(1:range, 1:shape, 1:top-level-same, 1:cleaned, 1:children-not-invented, 1:other-children-kept, 2:scan) tag != "" && d.Digest != "" ==> forall k: int :: mi < k && k < len(i.Manifests) ==> !(i.Manifests[k].Digest == d.Digest && tagOf(i.Manifests[k]) == tag)
+//@   loop 3: invariant [cleaned-nodigest] uses(range, shape, wf) init(1:range, 1:shape, 1:top-level-same, 1:cleaned, 1:children-not-invented, 1:other-children-kept, 2:scan) d.Digest == "" ==> forall k: int :: mi < k && k < len(i.Manifests) ==> (tag == "" || tagOf(i.Manifests[k]) != tag) && (referrer == "" || subjOf(i.Manifests[k]) != referrer)
+//@   loop 3: invariant [found-means-kept] uses(range, shape) init(1:range, 1:shape, 1:top-level-same, 1:cleaned, 1:children-not-invented, 1:other-children-kept, 2:scan) tag != "" && d.Digest != "" ==> (found <==> (exists k: int :: mi < k && k < len(i.Manifests) && i.Manifests[k].Digest == d.Digest))
+//@   loop 3: invariant [reachable] uses(range, shape, found-means-kept, others-witness) init(1:range, 1:shape, 1:top-level-same, 1:cleaned, 1:children-not-invented, 1:other-children-kept, 2:scan) tag != "" && d.Digest != "" && old(hasDigest(i, d.Digest)) ==> found || (exists k: int :: 0 <= k && k <= mi && i.Manifests[k].Digest == d.Digest)
+//@   loop 3: invariant [others-witness] uses(range, shape, wf) init(1:range, 1:shape, 1:top-level-same, 1:cleaned, 1:children-not-invented, 1:other-children-kept, 2:scan) others && !found && tag != "" && d.Digest != "" ==> (exists k: int :: 0 <= k && k <= mi && i.Manifests[k].Digest == d.Digest && tagOf(i.Manifests[k]) != tag)
+//@   loop 3: invariant [no-others] uses(range, shape, wf) init(1:range, 1:shape, 1:top-level-same, 1:cleaned, 1:children-not-invented, 1:other-children-kept, 2:scan) !others && tag != "" && d.Digest != "" ==> forall k: int :: 0 <= k && k <= mi && i.Manifests[k].Digest == d.Digest ==> tagOf(i.Manifests[k]) == tag
+//@   loop 3: invariant [other-tags-kept] uses(range, shape, wf) init(1:range, 1:shape, 1:top-level-same, 1:cleaned, 1:children-not-invented, 1:other-children-kept, 2:scan) rmOtherTagsKept(i, d)
+//@   loop 3: invariant [tags-not-invented] uses(range, shape, wf) init(1:range, 1:shape, 1:top-level-same, 1:cleaned, 1:children-not-invented, 1:other-children-kept, 2:scan) rmTagsNotInvented(i)
+//@   loop 3: invariant [other-subjects-kept] uses(range, shape, wf) init(1:range, 1:shape, 1:top-level-same, 1:cleaned, 1:children-not-invented, 1:other-children-kept, 2:scan) rmOtherSubjectsKept(i, d)
+//@   loop 3: invariant [subjects-not-invented] uses(range, shape, wf) init(1:range, 1:shape, 1:top-level-same, 1:cleaned, 1:children-not-invented, 1:other-children-kept, 2:scan) rmSubjectsNotInvented(i)
+//@   loop 3: invariant [digests-not-invented] uses(range, shape) init(1:range, 1:shape, 1:top-level-same, 1:cleaned, 1:children-not-invented, 1:other-children-kept, 2:scan) rmDigestsNotInvented(i)
+//@   loop 3: invariant [other-digests-kept] uses(range, shape) init(1:range, 1:shape, 1:top-level-same, 1:cleaned, 1:children-not-invented, 1:other-children-kept, 2:scan) rmOtherDigestsKept(i, d)
+//@   loop 3: invariant [children] uses(range, shape, wf) init(1:range, 1:shape, 1:top-level-same, 1:cleaned, 1:children-not-invented, 1:other-children-kept, 2:scan) !hasChild(i, d.Digest) || tag != "" || d.Digest == ""
+//@   loop 3: invariant [children-not-invented] uses(range, shape, wf) init(1:range, 1:shape, 1:top-level-same, 1:cleaned, 1:children-not-invented, 1:other-children-kept, 2:scan) rmChildrenNotInvented(i)
+//@   loop 3: invariant [other-children-kept] uses(range, shape, wf) init(1:range, 1:shape, 1:top-level-same, 1:cleaned, 1:children-not-invented, 1:other-children-kept, 2:scan) rmOtherChildrenKept(i, d)
+//@   loop 3: invariant [maps-not-invented] uses(range, shape) init(1:range, 1:shape, 1:top-level-same, 1:cleaned, 1:children-not-invented, 1:other-children-kept, 2:scan) rmMapsNotInvented(i)
+//@   loop 3: invariant [map-frame] uses(range, shape, maps-not-invented) init(1:range, 1:shape, 1:top-level-same, 1:cleaned, 1:children-not-invented, 1:other-children-kept, 2:scan) rmMapFrame(i)
+//@   loop 3: invariant [children-same] uses(range, shape, wf) init(1:range, 1:shape, 1:top-level-same, 1:cleaned, 1:children-not-invented, 1:other-children-kept, 2:scan) tag != "" || d.Digest == "" ==> rmChildrenSame(i)
 //@   loop 3: decreases mi + 1
+
+//@ -- ------------------------------------------------------------------
+//@ -- AddDesc
+//@ -- options are closures; the only one is IndexWithChildren: it appends to ic.children and touches nothing else
+//@ callback IndexOpt(ic *indexConf)
+//@   requires ic != nil
+//@   modifies field(indexConf.children), elems(Descriptor), alloc
+//@   ensures [frame] frame_elems_but(Descriptor, ic.children) && (arr(ic.children) == old(arr(ic.children)) || fresh(ic.children))
+
+//@ func IndexWithChildren$1(ic *indexConf)
+//@   props C18
+//@   requires ic != nil
+//@   ensures [frame] frame_elems_but(Descriptor, ic.children) && (arr(ic.children) == old(arr(ic.children)) || fresh(ic.children))
+
+//@ pred addOtherTagsKept(i, d) := forall j: int :: 0 <= j && j < old(len(i.Manifests)) && old(tagOf(i.Manifests[j])) != "" && old(tagOf(i.Manifests[j])) != old(tagOf(d)) ==>
+//@        tagRes(i, old(tagOf(i.Manifests[j])), old(i.Manifests[j]).Digest)
+//@ pred addOtherSubjectsKept(i, d) := forall j: int :: 0 <= j && j < old(len(i.Manifests)) && old(subjOf(i.Manifests[j])) != "" && old(subjOf(i.Manifests[j])) != old(subjOf(d)) ==>
+//@        subjRes(i, old(subjOf(i.Manifests[j])), old(i.Manifests[j]).Digest)
+//@ pred addTagsNotInvented(i, d) := forall k: int :: 0 <= k && k < len(i.Manifests) && tagOf(i.Manifests[k]) != "" ==>
+//@        (tagOf(i.Manifests[k]) == old(tagOf(d)) && i.Manifests[k].Digest == d.Digest) || old(tagRes(i, now(tagOf(i.Manifests[k])), now(i.Manifests[k].Digest)))
+//@ pred addSubjectsNotInvented(i, d) := forall k: int :: 0 <= k && k < len(i.Manifests) && subjOf(i.Manifests[k]) != "" ==>
+//@        (subjOf(i.Manifests[k]) == old(subjOf(d)) && i.Manifests[k].Digest == d.Digest) || old(subjRes(i, now(subjOf(i.Manifests[k])), now(i.Manifests[k].Digest)))
+//@ pred addMapsNotInvented(i, d) := forall k: int :: 0 <= k && k < len(i.Manifests) ==> i.Manifests[k].Annotations == d.Annotations ||
+//@        (exists j: int :: 0 <= j && j < old(len(i.Manifests)) && i.Manifests[k].Annotations == old(i.Manifests[j]).Annotations)
+//@ pred addDMapSame(d) := forall key: string :: mapsame(string, string, d.Annotations, key)
+//@ pred addLocals(d, tag, referrer) := tag == old(tagOf(d)) && referrer == old(subjOf(d)) && (tag == "" || referrer == "")
+//@ pred addNoAlias(i, d) := d.Annotations == nil || forall k: int :: 0 <= k && k < len(i.Manifests) ==> i.Manifests[k].Annotations != d.Annotations
+//@ pred addCleanTag(i, d, tag, mi) := tag != "" ==> forall k: int :: mi < k && k < len(i.Manifests) ==> !(i.Manifests[k].Digest != d.Digest && tagOf(i.Manifests[k]) == tag)
+//@ pred addCleanSubj(i, d, referrer, mi) := referrer != "" ==> forall k: int :: mi < k && k < len(i.Manifests) ==> !(i.Manifests[k].Digest != d.Digest && subjOf(i.Manifests[k]) == referrer)
+//@ -- an entry AddDesc may overwrite: same digest and plain, or already carrying the tag / subject being inserted
+//@ pred addCompatible(e, tag, referrer) := plain(e) || (tag != "" && tagOf(e) == tag) || (referrer != "" && subjOf(e) == referrer)
+
+//@ func (i *Index) AddDesc(d Descriptor, opts []IndexOpt)
+//@   props C18 C03
+//@   requires [wf] wfIndex(i)
+//@   requires [one-kind] tagOf(d) == "" || subjOf(d) == ""
+//@   requires [no-alias] addNoAlias(i, d)
+//@   ensures [wf] uses(4:range, 4:wf, 4:clean, 4:d-map-same, 4:maps-from-old, 6:none-compatible, 6:plain-means-absent) wfIndex(i)
+//@   ensures [tag-last-wins] old(tagOf(d)) != "" ==> tagRes(i, old(tagOf(d)), d.Digest)
+//@   ensures [subject-set] old(subjOf(d)) != "" ==> subjRes(i, old(subjOf(d)), d.Digest)
+//@   ensures [digest-present] hasDigest(i, d.Digest)
+//@   ensures [other-tags-kept] uses(4:range, 4:wf, 4:other-tags-kept, 4:d-map-same, 6:none-compatible) addOtherTagsKept(i, d)
+//@   ensures [tags-not-invented] uses(4:range, 4:wf, 4:tags-from-old, 4:d-map-same) addTagsNotInvented(i, d)
+//@   ensures [other-subjects-kept] uses(4:range, 4:wf, 4:other-subjects-kept, 4:d-map-same, 6:none-compatible) addOtherSubjectsKept(i, d)
+//@   ensures [subjects-not-invented] uses(4:range, 4:wf, 4:subjects-from-old, 4:d-map-same) addSubjectsNotInvented(i, d)
+//@   ensures [maps-not-invented] uses(4:range, 4:wf, 4:maps-from-old) addMapsNotInvented(i, d)
+//@   loop 1: invariant [frame] frame_elems(Descriptor) && fresh(conf.children) && frame_maps(string, string)
+//@   loop 2: invariant [range] uses(Index.RmDesc:shrinks) init(1:frame) -1 <= mi && mi < len(i.Manifests) && addLocals(d, tag, referrer) && (tag != "" || referrer != "")
+//@   loop 2: invariant [wf] uses(range, Index.RmDesc:wf, Index.RmDesc:shrinks) init(1:frame) wfIndex(i)
+//@   loop 2: invariant [d-map-same] uses(range, maps-from-old, wf, Index.RmDesc:map-frame) init(1:frame) addDMapSame(d)
+//@   assert [tag-nowhere] uses(range, wf.wfW1, Index.RmDesc:tag-gone, Index.RmDesc:tag-gone-nodigest, Index.RmDesc:tags-not-invented) after call Index.RmDesc#1: forall k: int :: 0 <= k && k < len(i.Manifests) ==> tagOf(i.Manifests[k]) != tag
+//@   loop 2: invariant [clean-tag] uses(range, assert.tag-nowhere, Index.RmDesc:shrinks) init(1:frame) addCleanTag(i, d, tag, mi)
+//@   loop 2: invariant [clean-subj] uses(range, wf, Index.RmDesc:shrinks) init(1:frame) addCleanSubj(i, d, referrer, mi)
+//@   loop 2: invariant [other-tags-kept] uses(range, wf, Index.RmDesc:other-tags-kept, Index.RmDesc:shrinks) init(1:frame) addOtherTagsKept(i, d)
+//@   loop 2: invariant [tags-from-old] uses(range, wf, Index.RmDesc:tags-not-invented, Index.RmDesc:shrinks) init(1:frame) rmTagsNotInvented(i)
+//@   loop 2: invariant [other-subjects-kept] uses(range, wf, Index.RmDesc:other-subjects-kept, Index.RmDesc:shrinks) init(1:frame) addOtherSubjectsKept(i, d)
+//@   loop 2: invariant [subjects-from-old] uses(range, wf, Index.RmDesc:subjects-not-invented, Index.RmDesc:shrinks) init(1:frame) rmSubjectsNotInvented(i)
+//@   loop 2: invariant [maps-from-old] uses(range, wf, Index.RmDesc:maps-not-invented, Index.RmDesc:shrinks) init(1:frame) rmMapsNotInvented(i)
+//@   loop 3: invariant [range] uses() init(1:frame) 0 <= ci && ci <= len(i.childManifests) && addLocals(d, tag, referrer)
+//@   loop 3: invariant [wf] uses(range) init(1:frame) wfIndex(i)
+//@   loop 3: invariant [d-map-same] uses(range) init(1:frame) addDMapSame(d)
+//@   loop 3: invariant [clean] uses(range, wf) init(1:frame, 2:clean-tag, 2:clean-subj, 2:range) addCleanTag(i, d, tag, -1) && addCleanSubj(i, d, referrer, -1)
+//@   loop 3: invariant [other-tags-kept] uses(range, wf) init(1:frame) addOtherTagsKept(i, d)
+//@   loop 3: invariant [tags-from-old] uses(range, wf) init(1:frame) rmTagsNotInvented(i)
+//@   loop 3: invariant [other-subjects-kept] uses(range, wf) init(1:frame) addOtherSubjectsKept(i, d)
+//@   loop 3: invariant [subjects-from-old] uses(range, wf) init(1:frame) rmSubjectsNotInvented(i)
+//@   loop 3: invariant [maps-from-old] uses(range, wf) init(1:frame) rmMapsNotInvented(i)
+//@   loop 4: invariant [range] uses() addLocals(d, tag, referrer)
+//@   loop 4: invariant [wf] uses(range) wfIndex(i)
+//@   loop 4: invariant [d-map-same] uses(range) addDMapSame(d)
+//@   loop 4: invariant [clean] uses(range, wf) addCleanTag(i, d, tag, -1) && addCleanSubj(i, d, referrer, -1)
+//@   loop 4: invariant [other-tags-kept] uses(range, wf) addOtherTagsKept(i, d)
+//@   loop 4: invariant [tags-from-old] uses(range, wf) rmTagsNotInvented(i)
+//@   loop 4: invariant [other-subjects-kept] uses(range, wf) addOtherSubjectsKept(i, d)
+//@   loop 4: invariant [subjects-from-old] uses(range, wf) rmSubjectsNotInvented(i)
+//@   loop 4: invariant [maps-from-old] uses(range, wf) rmMapsNotInvented(i)
+//@   loop 6: invariant [plain-means-absent] uses() tag == "" && referrer == "" ==> forall k: int :: 0 <= k && k <= rangeindex ==> i.Manifests[k].Digest != d.Digest
+//@   loop 6: invariant [none-compatible] uses() forall k: int :: 0 <= k && k <= rangeindex ==> !(i.Manifests[k].Digest == d.Digest && addCompatible(i.Manifests[k], tag, referrer))
